@@ -233,7 +233,9 @@ def run(frag, tier, replay=None, solo=False):
     env["VERIF_TIER"] = tier
     env["VERIF_DIR"] = VERIF
     env.setdefault("VERIF_SEED", "0")
-    env["VERIF_EVIDENCE"] = os.path.join(VERIF, "evidence", cid + frag.get("evidence_suffix", "") + ".json")
+    evdir = os.environ.get("VERIF_EVIDENCE_DIR") or os.path.join(VERIF, "evidence")
+    os.makedirs(evdir, exist_ok=True)
+    env["VERIF_EVIDENCE"] = os.path.join(evdir, cid + frag.get("evidence_suffix", "") + ".json")
     if replay:
         env["VERIF_REPLAY"] = os.path.abspath(replay)
         env["VERIF_EVIDENCE"] = os.path.join(BUILD, "replay-evidence-" + cid + ".json")
